@@ -82,8 +82,8 @@ def r3(cx):
     b = commit_body(cx)
     ap = sites(cx, b, "CommitEnv::apply")
     wr = sites(cx, b, "CommitEnv::write")
-    ma = sites(cx, b, "CommitBatch::mark_applied", minimum=2)
-    pu = sites(cx, b, "CommitPipeline::publish", minimum=2)
+    ma = sites(cx, b, "CommitBatch::mark_applied")
+    pu = sites(cx, b, "CommitPipeline::publish")
     dom(cx, b, wr, ap, "WAL write before memtable apply")
     # success path: the mark_applied / publish that are not in the write-failure arm
     ok_w, err_w = arm_of_result(cx, b, wr[0], "env.write")
